@@ -1,9 +1,135 @@
-(* C06 — Strings with equal UTF-16 content are indistinguishable, whatever their origin. *)
+(* C06 — Strings with equal UTF-16 content are indistinguishable, whatever their origin.
+   ONLY theorem statements; each is closed by [exact] of a lemma of C06/Proofs*.v.
+   jsstr = goja's asciiString / unicodeString / importedString; units = the UTF-16 meaning;
+   nf = goja's normal form (asciiString all < 0x80, unicodeString has a unit >= 0x80). *)
 From Coq Require Import List NArith ZArith Bool.
 Import ListNotations.
-From Verif.C06 Require Import Model Proofs.
+From Verif.C06 Require Import Model Proofs Proofs2 Proofs3 Proofs4.
+Local Open Scope N_scope.
 
-Theorem list_eqb_eq : forall a b, list_eqb a b = true <-> a = b.
-Proof. exact Proofs.list_eqb_eq. Qed.
+(* ---- 1. nf_closed: every constructor and every operation yields a normal-form string ------------------- *)
 
-Print Assumptions list_eqb_eq.
+Theorem nf_closed_constructors : forall (s us cps rs : list N),
+  nf (new_string_value s) = true /\ nf (to_value s) = true /\ nf (from_utf16 us) = true /\
+  nf (from_code_points cps) = true /\ nf (from_runes rs) = true.
+Proof. exact Proofs3.T_nf_closed_constructors. Qed.
+
+Theorem nf_closed : forall a b s e, nf a = true -> nf b = true ->
+  nf (concat a b) = true /\ nf (substring a s e) = true /\ nf (devirt a) = true.
+Proof. exact Proofs3.T_nf_closed. Qed.
+
+(* unicodeStringBuilder (padStart/padEnd, repeat, template literals): whatever sequence of normal-form strings is
+   written, String() is in normal form and its units are the concatenation *)
+Theorem builder_nf_units : forall l, Forall (fun s => nf s = true) l ->
+  let st := fold_left usb_write l ([], false) in
+  nf (usb_string (fst st) (snd st)) = true /\ units (usb_string (fst st) (snd st)) = List.concat (map units l).
+Proof. exact Proofs3.T_builder_nf_units. Qed.
+
+(* tree level: for EVERY expression tree over the generated operations (Go leaves with any bytes, valid UTF-8 or not;
+   concat, template, slice/substring/substr/at/charAt, padStart/padEnd, repeat, trim*, case mapping, JSON), goja's
+   representation of the result is in normal form — no hypothesis at all *)
+Theorem nf_closed_trees : forall e : expr, nf (ieval e) = true.
+Proof. exact Proofs4.ieval_nf. Qed.
+
+Example nf_closed_nonvacuous :
+  nf (SUni [97; 233]) = true /\ substring (SUni [97; 233]) 0 1 = SAscii [97] /\
+  concat (SAscii [97]) (SImp [195; 169] false) = SUni [97; 233].
+Proof. vm_compute. auto. Qed.
+
+(* ---- 2. strop_eq_spec: the operations act on the UTF-16 units (surrogates are just units) ------------- *)
+
+Theorem constructors_eq_spec : forall (s us cps : list N),
+  units (new_string_value s) = flat_map enc16 (decode s) /\ units (to_value s) = flat_map enc16 (decode s) /\
+  units (from_utf16 us) = us /\ units (from_code_points cps) = s_from_code_points cps.
+Proof. exact Proofs3.T_constructors_eq_spec. Qed.
+
+(* full statement [forall a b, units (concat a b) = units a ++ units b] is refuted on the current tree (below);
+   proved with the unscanned+unscanned importedString fast path carved out *)
+Theorem strop_eq_spec_partial : forall a b s e i, nf a = true -> nf b = true ->
+  (both_unscanned a b = false -> units (concat a b) = units a ++ units b) /\
+  units (substring a s e) = cut (units a) s e /\
+  char_at a i = nth i (units a) 0 /\
+  length_of a = length (units a) /\
+  units (devirt a) = units a.
+Proof. exact Proofs3.T_strop_eq_spec_partial. Qed.
+
+Theorem concat_eq_spec_refuted : exists s t,
+  units (concat (SImp s false) (SImp t false)) <> units (SImp s false) ++ units (SImp t false).
+Proof. exact concat_fast_refuted. Qed.
+
+Example strop_lone_surrogates_preserved :
+  units (concat (SUni [55357]) (SUni [56832])) = [55357; 56832] /\
+  units (substring (SUni [97; 55357; 56832]) 1 2) = [55357].
+Proof. vm_compute. auto. Qed.
+
+(* ---- 3. eq_hash_key_agree ------------------------------------------------------------------------------ *)
+
+(* === never identifies strings with different units: all nine pairs, any scanned flags *)
+Theorem strict_equals_sound : forall a b, nf a = true -> nf b = true ->
+  strict_equals a b = true -> units a = units b.
+Proof. exact Proofs2.strict_equals_sound. Qed.
+
+(* === is exactly equality of units for the eight pairs with at most one importedString *)
+Theorem strict_equals_partial : forall a b, nf a = true -> nf b = true -> both_imported a b = false ->
+  (strict_equals a b = true <-> units a = units b).
+Proof. exact Proofs3.T_strict_equals_partial. Qed.
+
+(* F19: imported x imported compares raw bytes: equal units, both === a third string, not === each other,
+   == true, Map lookup misses, object key hits *)
+Theorem strict_equals_refuted : exists a b,
+  nf a = true /\ nf b = true /\ units a = units b /\ strict_equals a b = false
+  /\ equals a b = true /\ map_hit a b = false /\ objkey_hit a b = true
+  /\ (exists l, nf l = true /\ strict_equals a l = true /\ strict_equals l b = true).
+Proof. exact strict_equals_imported_refuted. Qed.
+
+(* property keys and hash input agree with the units for ALL nine pairs (the 0xFEFF marker argument: an ASCII key
+   never starts with FF FE) *)
+Theorem key_hash_agree : forall a b, nf a = true -> nf b = true ->
+  (raw_key a = raw_key b <-> units a = units b) /\ (hash_bytes a = hash_bytes b <-> units a = units b).
+Proof. exact Proofs3.T_key_hash_agree. Qed.
+
+(* the keys of an importedString and a unicodeString with the same units coincide; and the nf hypothesis is needed:
+   outside normal form an "ASCII" key can collide with a UTF-16 key *)
+Example key_hash_nonvacuous :
+  raw_key (SImp [195; 169] false) = raw_key (SUni [233]) /\ raw_key (SAscii [255; 254]) = raw_key (SUni []).
+Proof. vm_compute. split; reflexivity. Qed.
+
+(* ---- 4. compare_eq_spec: CompareTo is the lexicographic order on units, for all nine pairs ------------- *)
+
+Theorem compare_eq_spec : forall a b, compare_to a b = lex (units a) (units b).
+Proof. exact compare_to_spec. Qed.
+
+Theorem lex_order : forall a b, (lex a b = Eq <-> a = b) /\ CompOpp (lex a b) = lex b a.
+Proof. exact Proofs3.T_lex_order. Qed.
+
+Example compare_nonvacuous :
+  compare_to (SAscii [97]) (SImp [97; 195; 169] false) = Lt /\ compare_to (SUni [65535]) (SUni [55296; 56320]) = Gt.
+Proof. vm_compute. auto. Qed.
+
+(* ---- 5. export_eq --------------------------------------------------------------------------------------- *)
+
+Theorem export_eq_partial : forall a, nf a = true -> (forall s sc, a <> SImp s sc) ->
+  export a = s_export (units a).
+Proof. exact export_spec. Qed.
+
+Theorem export_eq_refuted : exists a, nf a = true /\ export a <> s_export (units a).
+Proof. exact export_imported_refuted. Qed.
+
+Example export_lone_surrogate : export (SUni [97; 55296]) = [97; 239; 191; 189].
+Proof. vm_compute. reflexivity. Qed.
+
+Print Assumptions nf_closed_constructors.
+Print Assumptions nf_closed.
+Print Assumptions builder_nf_units.
+Print Assumptions nf_closed_trees.
+Print Assumptions constructors_eq_spec.
+Print Assumptions strop_eq_spec_partial.
+Print Assumptions concat_eq_spec_refuted.
+Print Assumptions strict_equals_sound.
+Print Assumptions strict_equals_partial.
+Print Assumptions strict_equals_refuted.
+Print Assumptions key_hash_agree.
+Print Assumptions compare_eq_spec.
+Print Assumptions lex_order.
+Print Assumptions export_eq_partial.
+Print Assumptions export_eq_refuted.
